@@ -21,8 +21,17 @@ def report_suppressions(message):
     record = logging_seen_warnings.get(hash(message))
 
     if record:
+        # report the message as a field of a JSON object so that the formatter sanitizes it
+        # again: inside a line of text its sensitive values would be written as they are
+        try:
+            suppressed = json.loads(message)
+        except (TypeError, ValueError):
+            suppressed = message
         ml.get_logger().warning(
-            f'The following message was suppressed {record} time(s) - "{message}"'
+            {
+                "message": f"The following message was suppressed {record} time(s)",
+                "suppressed": suppressed,
+            }
         )
 
 
